@@ -235,6 +235,48 @@ def _commutative_body(loop: ast.For) -> bool:
     return True
 
 
+ORDER_FREE = {"min", "max", "sum", "len", "any", "all", "sorted", "set", "frozenset", "bool"}
+
+
+def _order_free_comprehension(func: FuncInfo, generator: ast.comprehension) -> bool:
+    """Is the comprehension that iterates this generator consumed in a way that cannot see its order?"""
+    owner = None
+    parents: Dict[int, ast.AST] = {}
+    for node in ast.walk(func.node):
+        for child in ast.iter_child_nodes(node):
+            parents[id(child)] = node
+        if isinstance(node, (ast.ListComp, ast.SetComp, ast.DictComp, ast.GeneratorExp)) and generator in node.generators:
+            owner = node
+    if owner is None:
+        return False
+    if isinstance(owner, (ast.SetComp, ast.DictComp)):
+        return True
+
+    def consumer_ok(expr: ast.AST) -> bool:
+        parent = parents.get(id(expr))
+        if isinstance(parent, ast.Call) and expr in parent.args and (dotted(parent.func) or "") in ORDER_FREE:
+            return True
+        if isinstance(parent, (ast.If, ast.While, ast.IfExp, ast.Assert)) and parent.test is expr:
+            return True
+        if isinstance(parent, ast.UnaryOp) and isinstance(parent.op, ast.Not):
+            return consumer_ok(parent)
+        if isinstance(parent, ast.BoolOp):
+            return consumer_ok(parent)
+        if isinstance(parent, ast.Compare) and any(isinstance(op, (ast.In, ast.NotIn)) for op in parent.ops) and expr in parent.comparators:
+            return True
+        return False
+
+    if consumer_ok(owner):
+        return True
+    parent = parents.get(id(owner))
+    if isinstance(parent, ast.Assign) and len(parent.targets) == 1 and isinstance(parent.targets[0], ast.Name):
+        name = parent.targets[0].id
+        uses = [n for n in walk_local(func.node) if isinstance(n, ast.Name) and n.id == name and isinstance(n.ctx, ast.Load)]
+        stores = [n for n in walk_local(func.node) if isinstance(n, ast.Name) and n.id == name and isinstance(n.ctx, ast.Store)]
+        return bool(uses) and len(stores) == 1 and all(consumer_ok(use) for use in uses)
+    return False
+
+
 def r07e(ctx: Context) -> None:
     prog = ctx.prog
     rule = ctx.rule("R07e", "no unordered collection, directory listing or clock/random value reaches the output order", 4)
@@ -264,8 +306,9 @@ def r07e(ctx: Context) -> None:
                 key = func_key(func, expr) + f" [{how}]"
                 if how == "for" and isinstance(node, ast.For) and _commutative_body(node):
                     rule.ok(key, "commutative accumulation over a set")
+                elif how == "comprehension" and _order_free_comprehension(func, node):
+                    rule.ok(key, "the comprehension's result is consumed only by order-free operations (set/dict, min/max/sum/len/any/all/sorted, truth tests)")
                 elif how == "comprehension":
-                    # a set/dict comprehension or an order-free consumer around it is fine
                     rule.fail(key, where(func, expr), f"a set ('{norm(expr)}') is iterated in a comprehension: the resulting order differs between runs (hash randomisation)")
                 else:
                     rule.fail(key, where(func, expr), f"a set ('{norm(expr)}') is consumed in order by '{how}': output order differs between runs (hash randomisation)")
